@@ -56,7 +56,7 @@ use nohash_hasher::BuildNoHashHasher;
 // ------------------------------------------------------------
 
 pub use crate::ser_error::Error;
-use crate::ser_quoting::{is_plain_safe, is_plain_value_safe};
+use crate::ser_quoting::{has_unsafe_plain_edge, is_plain_safe, is_plain_value_safe};
 
 /// Result alias.
 pub type Result<T> = std::result::Result<T, Error>;
@@ -745,7 +745,9 @@ impl<'a, W: Write> YamlSerializer<'a, W> {
             } else {
                 self.write_single_quoted(s)
             }
-        } else if is_plain_value_safe(s, self.yaml_12, self.in_flow > 0) {
+        } else if is_plain_value_safe(s, self.yaml_12, self.in_flow > 0)
+            && !has_unsafe_plain_edge(s)
+        {
             self.out.write_str(s)?;
             Ok(())
         } else {
